@@ -8,10 +8,12 @@
 import Rl.Editor
 import Rl.Spec.Doc
 import Rl.Lemmas.Keymap
+import Rl.Lemmas.KeymapVi
 import Rl.Lemmas.LineBuffer
 import Rl.Lemmas.LineBufferSafe
 import Rl.Lemmas.EditorM
 import Rl.Lemmas.EditorOps
+import Rl.Props.C03
 open Rl Rl.Spec Rl.Spec.Doc
 
 /-! ### C01_binding_table — every (key, action) of the README tables is what the keymap returns
@@ -102,6 +104,75 @@ theorem C01_binding_table_emacs_common (S : Segmenter) (U : UData) (cfg : EdCfg)
          Mods.alt, isDigit, dirMove, lineEmpty, hasHint, cursorAtEnd, hvi]))
 
 
+/-- vi command mode: every entry of the mode's table and of the "For all modes" table that needs
+    no further key, every state, every pending count `n` (vi counts are never negative): `viCommand`
+    returns the `Cmd` denoting the documented action, the line is untouched.  (Chunk lemmas in
+    Rl/Lemmas/KeymapVi.lean.) -/
+theorem C01_binding_table_vi_command (S : Segmenter) (U : UData) (cfg : EdCfg) (hb : cfg.binds = [])
+    (fuel : Nat) (s : Ed) (h0 : 0 ≤ s.inp.numArgs) (e : KeyEvent × DocAction) (he : e ∈ table .viCommand) (cmd : Cmd)
+    (hc : (e.2.resolve (countOf s.inp.numArgs).1 true s.line.buf.isEmpty true).toCmd = some cmd) :
+    ∃ s', viCommand S U cfg fuel e.1 s = .ok (cmd, s') ∧ s'.line = s.line := by
+  simp only [table, List.mem_append] at he
+  rcases he with he | he
+  · rw [viCommandTable_split] at he
+    simp only [List.mem_append] at he
+    rcases he with he | he | he
+    · exact viCommand_table_1 S U cfg hb fuel s h0 e he cmd hc
+    · exact viCommand_table_2 S U cfg hb fuel s h0 e he cmd hc
+    · exact viCommand_table_3 S U cfg hb fuel s h0 e he cmd hc
+  · exact viCommand_table_common S U cfg hb fuel s h0 e he cmd hc
+
+/-- vi insert mode (count 1, as `viInsert` hands to `common`): the mode's table and the "For all
+    modes" table; `Right` with a hint at the end of the line completes the hint instead. -/
+theorem C01_binding_table_vi_insert (S : Segmenter) (U : UData) (cfg : EdCfg) (hb : cfg.binds = [])
+    (fuel : Nat) (s : Ed) (e : KeyEvent × DocAction) (he : e ∈ table .viInsert) (cmd : Cmd)
+    (hc : (e.2.resolve 1 true s.line.buf.isEmpty true).toCmd = some cmd)
+    (hr : ¬ (e.1 = key .right ∧ s.hint.isSome = true ∧ s.line.pos = blen s.line.buf)) :
+    ∃ s', viInsert S U cfg fuel e.1 s = .ok (cmd, s') ∧ s'.line = s.line :=
+  viInsert_table S U cfg hb fuel s e he cmd hc hr
+
+/-! ### C01_vi_operator_motion — `d` / `c` / `y` + [count] motion
+
+  `docMotion` (Rl/Lemmas/KeymapVi.lean) is the documented movement of a `viMotionTable` entry:
+  `operatorMovement` for the plain motions (`e`/`E` inclusive, `cw` = `ce`), the character search
+  for `f t F T` + char, the remembered search for `;` `,`.  The count is the count typed before the
+  operator (`n0`) times the count typed before the motion. -/
+
+/-- every operator, every argument-free entry of the motion table, no count before the motion -/
+theorem C01_vi_operator_motion (S : Segmenter) (U : UData) (cfg : EdCfg) (fuel : Nat) (op : KeyEvent)
+    (hop : isOperatorKey op) (n0 : Nat) (s s1 : Ed) (e : KeyEvent × DocAction) (he : e ∈ viMotionTable)
+    (hcs : ∀ k, e.2 ≠ .charSearch k) (hk : nextKey false s = .ok (e.1, s1)) :
+    viCmdMotion S U cfg fuel op n0 s =
+      .ok (docMotion e.2 n0 (op == plain 'c') s1.inp.lastCharSearch none, s1) :=
+  viCmdMotion_plain S U cfg fuel op hop n0 s s1 e he hcs hk
+
+/-- with a count `c₂` between operator and motion: count `min (c₂ · n0) 65535` -/
+theorem C01_vi_operator_motion_counts (S : Segmenter) (U : UData) (cfg : EdCfg) (fuel : Nat) (op : KeyEvent)
+    (hop : isOperatorKey op) (n0 : Nat) (s s1 s2 : Ed) (d : Char) (hd1 : '1' ≤ d) (hd9 : d ≤ '9')
+    (e : KeyEvent × DocAction) (he : e ∈ viMotionTable) (hcs : ∀ k, e.2 ≠ .charSearch k)
+    (hk : nextKey false s = .ok (⟨.char d, 0⟩, s1))
+    (hdig : viArgDigit S U cfg fuel d s1 = .ok (e.1, s2)) (h0 : 0 ≤ s2.inp.numArgs) :
+    viCmdMotion S U cfg fuel op n0 s =
+      .ok (docMotion e.2 (min ((countOf s2.inp.numArgs).1 * n0) 65535) (op == plain 'c') s2.inp.lastCharSearch none,
+           { s2 with inp := { s2.inp with numArgs := 0 } }) :=
+  viCmdMotion_count S U cfg fuel op hop n0 s s1 s2 d hd1 hd9 e he hcs hk hdig h0
+
+/-- `f t F T` + a plain character as the motion: the documented search, which is also remembered -/
+theorem C01_vi_operator_char_search (S : Segmenter) (U : UData) (cfg : EdCfg) (fuel : Nat) (op : KeyEvent)
+    (hop : isOperatorKey op) (n0 : Nat) (s s1 s2 : Ed) (k : KeyEvent) (kind ch : Char)
+    (he : (k, DocAction.charSearch kind) ∈ viMotionTable)
+    (hk : nextKey false s = .ok (k, s1)) (hk2 : nextKey false s1 = .ok (⟨.char ch, 0⟩, s2)) :
+    viCmdMotion S U cfg fuel op n0 s =
+      .ok (docMotion (.charSearch kind) n0 (op == plain 'c') s1.inp.lastCharSearch (some ch),
+           { s2 with inp := { s2.inp with lastCharSearch := some (charSearchOf kind ch) } }) :=
+  viCmdMotion_charSearch S U cfg fuel op hop n0 s s1 s2 k kind ch he hk hk2
+
+/-- the operator key typed twice (`dd` `cc` `yy`) is the whole line -/
+theorem C01_vi_operator_doubled (S : Segmenter) (U : UData) (cfg : EdCfg) (fuel : Nat) (op : KeyEvent)
+    (n0 : Nat) (s s1 : Ed) (hk : nextKey false s = .ok (op, s1)) :
+    viCmdMotion S U cfg fuel op n0 s = .ok (some .wholeLine, s1) :=
+  viCmdMotion_doubled S U cfg fuel op n0 s s1 hk
+
 /-! ### C01_numeric_argument -/
 
 /-- Spec: a typed argument of at most four digits has its decimal value. -/
@@ -164,17 +235,24 @@ theorem C01_numeric_argument_minus_12 :
 
 /-! ### C01_self_insert_once — a printable character is inserted exactly once at the cursor -/
 
-/-- Full statement: `execute (SelfInsert 1 c)` on a growable buffer with the cursor on a boundary
-    inserts `c` exactly once at the cursor, puts the cursor just after it, and proceeds.  (Proved
-    below without a helper installed; with a helper the highlighter's `highlight_char` flag is
-    threaded through the refresh, which does not touch the line — not yet carried out.) -/
+/-- Statement as first written: `execute (SelfInsert 1 c)` on a growable buffer with the cursor on a
+    boundary inserts `c` exactly once at the cursor, puts the cursor just after it, and proceeds.
+    It quantifies over every helper, including a hinter that panics when it is asked for the hint of
+    the new text (`cfg.hinterPanicAt`, the scripted panic of property C17): for that helper the read
+    ends with the panic outcome, so the statement in this form is FALSE (counter-example below); the
+    theorem is `C01_self_insert_once` with the hinter's panic excluded. -/
 def C01_self_insert_once_statement : Prop :=
   ∀ (S : Segmenter) (U : UData) (cfg : EdCfg) (c : Char) (s : Ed) (x z : Text),
     s.line.buf = x ++ z → s.line.pos = blen x → s.line.canGrow = true →
     ∃ s', execute S U cfg (.selfInsert 1 c) s = .ok (.proceed, s') ∧
       s'.line.buf = x ++ [c] ++ z ∧ s'.line.pos = blen x + c.utf8Size
 
-theorem C01_self_insert_once_partial (S : Segmenter) (U : UData) (cfg : EdCfg) (hh : cfg.hasHelper = false)
+/-- **A printable character is inserted exactly once at the cursor**, with or without a helper
+    (hinter, highlighter, fast path or full refresh): the only excluded case is a hinter scripted to
+    panic.  The new text is the old one with `c` at the cursor, the cursor is just after it, and the
+    command proceeds (no submit, no exit). -/
+theorem C01_self_insert_once (S : Segmenter) (U : UData) (cfg : EdCfg)
+    (hh : cfg.hasHelper = false ∨ cfg.hinterPanicAt = none)
     (c : Char) (s : Ed) (x z : Text)
     (hb : s.line.buf = x ++ z) (hp : s.line.pos = blen x) (hg : s.line.canGrow = true) :
     ∃ s', execute S U cfg (.selfInsert 1 c) s = .ok (.proceed, s') ∧
@@ -197,25 +275,51 @@ theorem C01_self_insert_once_partial (S : Segmenter) (U : UData) (cfg : EdCfg) (
       rw [hl]
       simp
     · intro o s' ⟨_, hd⟩
-      rcases hd with ⟨_, e, he⟩ | ⟨h1, _⟩
+      rcases hd with ⟨_, e, he⟩ | ⟨h1, h2⟩
       · rw [hins] at he; cases he
-      · rw [hh] at h1; cases h1
+      · rcases hh with hh | hh
+        · rw [hh] at h1; cases h1
+        · exact h2 hh
   obtain ⟨st, s', h1, h2, h3⟩ := returns_iff_wp.mpr hw
   subst h2
   exact ⟨s', h1, h3⟩
 
+/-- the special case without a helper -/
+theorem C01_self_insert_once_partial (S : Segmenter) (U : UData) (cfg : EdCfg) (hh : cfg.hasHelper = false)
+    (c : Char) (s : Ed) (x z : Text)
+    (hb : s.line.buf = x ++ z) (hp : s.line.pos = blen x) (hg : s.line.canGrow = true) :
+    ∃ s', execute S U cfg (.selfInsert 1 c) s = .ok (.proceed, s') ∧
+      s'.line.buf = x ++ [c] ++ z ∧ s'.line.pos = blen x + c.utf8Size :=
+  C01_self_insert_once S U cfg (.inl hh) c s x z hb hp hg
+
+/-- the helper of the counter-example: installed, its hinter panics at the first call -/
+def C01_cexU : UData :=
+  { alnum := fun _ => true, ws := fun _ => false, upper := fun c => [c], lower := fun c => [c],
+    width := fun t => t.length, cwidth := fun _ => 1 }
+def C01_cexCfg : EdCfg := { vi := false, hasHelper := true, hinterPanicAt := some 1 }
+def C01_cexEd : Ed := initEd C01_cexCfg (KillRing.new 60) { buf := [], avail := [], future := [] }
+
+/-- The unrestricted statement is false: with a hinter that panics, typing `a` on the empty line
+    does not return (the model exits with the panic outcome — what `catch_unwind` shows in the
+    harness for `ed17` requests with a panicking helper). -/
+theorem C01_self_insert_once_counterexample : ¬ C01_self_insert_once_statement := by
+  intro h
+  obtain ⟨s', hs, _⟩ := h charSeg C01_cexU C01_cexCfg 'a' C01_cexEd [] [] rfl rfl rfl
+  have hk : (execute charSeg C01_cexU C01_cexCfg (.selfInsert 1 'a') C01_cexEd).isOk = false := by rfl
+  rw [hs] at hk
+  cases hk
+
 /-! ### C01_motion_pure — no command documented as a motion changes the text -/
 
-/-- Full statement: no `Move` command changes the text.  Proved below for every movement except
-    `ViFirstPrint` (`^`: two chained motions with a branch on the first character; the same
-    `PosOnly` lemmas apply, the proof through the `do` join point is not carried out). -/
+/-- Statement: no `Move` command changes the text, for every movement, every state, whether the
+    command returns or exits. -/
 def C01_motion_pure_statement : Prop :=
   ∀ (S : Segmenter) (U : UData) (cfg : EdCfg) (m : Movement), TextPure (execute S U cfg (.move m))
 
-/-- `execute (Move m)` never changes the text, for every movement, every state, whether the
-    command returns or not (lifted from the `PosOnly` lemmas behind `C03_motion_copy_pure`). -/
-theorem C01_motion_pure_partial (S : Segmenter) (U : UData) (cfg : EdCfg) (m : Movement) (hm : m ≠ .viFirstPrint) :
-    TextPure (execute S U cfg (.move m)) := by
+/-- `execute (Move m)` never changes the text (lifted from the `PosOnly` lemmas behind
+    `C03_motion_copy_pure`; `^` is two chained motions with a branch on the first character). -/
+theorem C01_motion_pure : C01_motion_pure_statement := by
+  intro S U cfg m
   have em {op : LM Bool} (h : PosOnly op) : TextPure (do editMove S U cfg op; pure Status.proceed : EM Status) :=
     TextPure.bind (TextPure.editMove S U cfg h) (fun _ => TextPure.pure _)
   cases m
@@ -234,13 +338,24 @@ theorem C01_motion_pure_partial (S : Segmenter) (U : UData) (cfg : EdCfg) (m : M
     exact TextPure.bind TextPure.getPromptCol (fun pc => em (PosOnly.moveToLineUp S U n pc))
   case lineDown n =>
     exact TextPure.bind TextPure.getPromptCol (fun pc => em (PosOnly.moveToLineDown S U n pc))
-  case viFirstPrint => exact absurd rfl hm
+  case viFirstPrint =>
+    refine TextPure.bind (TextPure.editMove S U cfg (PosOnly.moveHome S U)) (fun _ => ?_)
+    refine TextPure.bind TextPure.getLine (fun l => ?_)
+    generalize l.buf.head? = o
+    cases o with
+    | none => exact TextPure.pure _
+    | some c =>
+      by_cases hw : U.ws c = true
+      · have h := em (PosOnly.moveToNextWord S U .start .big 1)
+        simpa [hw] using h
+      · have h : TextPure (pure Status.proceed : EM Status) := TextPure.pure _
+        simpa [hw] using h
 
 /-- in particular: a step that returns keeps the text -/
-theorem C01_motion_pure_ok (S : Segmenter) (U : UData) (cfg : EdCfg) (m : Movement) (hm : m ≠ .viFirstPrint)
+theorem C01_motion_pure_ok (S : Segmenter) (U : UData) (cfg : EdCfg) (m : Movement)
     (s s' : Ed) (st : Status)
     (h : execute S U cfg (.move m) s = .ok (st, s')) : s'.line.buf = s.line.buf := by
-  have := C01_motion_pure_partial S U cfg m hm s
+  have := C01_motion_pure S U cfg m s
   rw [h] at this
   exact this
 
@@ -253,10 +368,302 @@ theorem C01_outcome_interrupt (S : Segmenter) (U : UData) (cfg : EdCfg) (s : Ed)
   rw [hx]
   simp [EM.bind_apply, logRender, EM.modify, EM.exit]
 
-/-- Full statement at the level of the read loop (not proved: needs the loop invariant "the last
-    executed step decides the outcome" through `mainLoop` and its sub-loops, and the step lemmas
-    "Enter without a helper submits with the text unchanged", "EndOfFile on an empty line exits with
-    eof"; the oracle checks all three outcomes on every run of the implementation). -/
+/-- **Step level** (one command, any state): `Interrupt` exits with the interrupted outcome;
+    `EndOfFile` on the empty line exits with end-of-file; Enter (`AcceptOrInsertLine`) on a text the
+    validator accepts — or with no helper installed (`verdictOf`) — submits; in all three the line is
+    the one the command found. -/
+theorem C01_outcome_step (S : Segmenter) (U : UData) (cfg : EdCfg) (s : Ed) :
+    wp (execute S U cfg .interrupt) (fun _ _ => False) (fun o s' => o = .interrupted ∧ s'.line = s.line) s ∧
+    (s.line.buf = [] →
+      wp (execute S U cfg .endOfFile) (fun _ _ => False) (fun o s' => o = .eof ∧ s'.line = s.line) s) ∧
+    (∀ m, verdictOf cfg s.line.buf = .valid m →
+      wp (execute S U cfg (.acceptOrInsertLine true)) (fun st s' => st = .submit ∧ s'.line = s.line) (fun _ _ => False) s) := by
+  refine ⟨?_, ?_, ?_⟩
+  · have hx : execute S U cfg .interrupt = (do logRender (fun _ => .moveToEnd); EM.exit .interrupted) := rfl
+    rw [hx]
+    simp only [wp_bind, wp_logRender, wp_exit]
+    constructor <;> first | rfl | trivial
+  · intro he
+    rw [execute_endOfFile]
+    refine wp_withPreAccept S U cfg fun s1 hc => ?_
+    obtain ⟨hl, _⟩ := Ed.core_eq hc
+    simp only [wp_bind, wp_lineEmpty, hl, he, List.isEmpty_nil, if_true, wp_exit]
+    constructor <;> first | exact hl | rfl | trivial
+  · intro m hv
+    rw [execute_acceptOrInsertLine]
+    refine wp_withPreAccept S U cfg fun s1 hc => ?_
+    obtain ⟨hl, _⟩ := Ed.core_eq hc
+    have hv1 : verdictOf cfg s1.line.buf = .valid m := by rw [hl]; exact hv
+    have hact : acceptActOf U cfg true s1 = .submit := by
+      simp [acceptActOf, hv1, Verdict.isValid, acceptDecision]
+    refine wp_mono (execAccept_spec S U cfg true s1) ?_ ?_
+    · intro st s2 ⟨_, _, _, _, _, h⟩
+      rw [hact] at h
+      exact ⟨h.1, h.2.trans hl⟩
+    · intro o s2 h
+      rcases h with ⟨_, h | h | h⟩ | h
+      · have := h.2.2; simp [verdictOf, h.2.1] at hv1; rw [this] at hv1; cases hv1
+      · have := h.2.2; simp [verdictOf, h.2.1] at hv1; rw [this] at hv1; cases hv1
+      · rw [hact] at h; exact absurd h.2.2.1 (by simp)
+      · rw [hact] at h; exact absurd h.2.2.2 (by simp)
+
+
+/-- **Loop level**: whatever key sequence made the keymap hand the main loop `Interrupt`,
+    `EndOfFile` (empty line) or Enter's `AcceptOrInsertLine` (text accepted by the validator, or no
+    helper), that iteration ends the read with the interrupted / end-of-file outcome, resp. returns
+    from the loop, and the line is exactly the one the `Event::Any` handler was shown for that key
+    (`s1`, the state after the keymap).  `C01_outcome_readline` then gives the value of the read. -/
 def C01_outcome_statement : Prop :=
-  ∀ (S : Segmenter) (U : UData) (cfg : EdCfg) (ring : KillRing) (left right : Text) (inp : Input) (l : Text) (s : Ed),
-    readline S U cfg ring left right inp = (.line l, s) → s.line.buf = l
+  ∀ (S : Segmenter) (U : UData) (cfg : EdCfg) (fuel : Nat) (s s1 : Ed) (cmd : Cmd),
+    nextCmd S U cfg (fuel + 1) false false s = .ok (cmd, s1) →
+    (cmd = .interrupt → ∃ s', mainLoop S U cfg (fuel + 2) s = .error (.interrupted, s') ∧ s'.line = s1.line) ∧
+    (cmd = .endOfFile → s1.line.buf = [] →
+      ∃ s', mainLoop S U cfg (fuel + 2) s = .error (.eof, s') ∧ s'.line = s1.line) ∧
+    (cmd = .acceptOrInsertLine true → (∃ m, verdictOf cfg s1.line.buf = .valid m) →
+      ∃ s', mainLoop S U cfg (fuel + 2) s = .ok ((), s') ∧ s'.line = s1.line)
+
+theorem C01_outcome : C01_outcome_statement := by
+  intro S U cfg fuel s s1 cmd hnext
+  refine ⟨?_, ?_, ?_⟩
+  · rintro rfl
+    rw [mainLoop_step S U cfg fuel s s1 _ hnext (by simp) (by simp) (by simp) (by simp)]
+    have h := (C01_outcome_step S U cfg { s1 with ring := s1.ring.reset }).1
+    simp only [Cmd.shouldResetKillRing, if_true, EM.bind_apply]
+    unfold wp at h
+    split at h
+    · exact h.elim
+    · rename_i o s' heq
+      rw [heq]; obtain ⟨rfl, h2⟩ := h; exact ⟨s', rfl, h2⟩
+  · rintro rfl he
+    rw [mainLoop_step S U cfg fuel s s1 _ hnext (by simp) (by simp) (by simp) (by simp)]
+    have h := (C01_outcome_step S U cfg { s1 with ring := s1.ring.reset }).2.1 he
+    simp only [Cmd.shouldResetKillRing, if_true, EM.bind_apply]
+    unfold wp at h
+    split at h
+    · exact h.elim
+    · rename_i o s' heq
+      rw [heq]; obtain ⟨rfl, h2⟩ := h; exact ⟨s', rfl, h2⟩
+  · rintro rfl ⟨m, hv⟩
+    rw [mainLoop_step S U cfg fuel s s1 _ hnext (by simp) (by simp) (by simp) (by simp)]
+    have h := (C01_outcome_step S U cfg { s1 with ring := s1.ring.reset }).2.2 m hv
+    simp only [Cmd.shouldResetKillRing, if_true, EM.bind_apply]
+    unfold wp at h
+    split at h
+    · rename_i st s' heq
+      rw [heq]; obtain ⟨rfl, h2⟩ := h; exact ⟨s', rfl, h2⟩
+    · exact h.elim
+
+/-- **Key level, emacs mode**: a key press that decodes to an entry of the "For all modes" table
+    documented as C-c / C-d / Enter (C-j, C-m) ends the read as documented — interrupted; end of file
+    when the line is empty; returned from the loop when the validator accepts the text (or no helper
+    is installed) — and the line is the one in place when the key was read.  (Table theorem +
+    `C01_outcome`.) -/
+theorem C01_outcome_emacs_keys (S : Segmenter) (U : UData) (cfg : EdCfg) (hvi : cfg.vi = false) (hb : cfg.binds = [])
+    (fuel : Nat) (s s0 : Ed) (e : KeyEvent × DocAction) (he : e ∈ commonTable)
+    (hk : nextKey false s = .ok (e.1, s0)) :
+    (e.2 = .interrupt → ∃ s', mainLoop S U cfg (fuel + 2) s = .error (.interrupted, s') ∧ s'.line = s0.line) ∧
+    (e.2 = .deleteOrEof → s0.line.buf = [] →
+      ∃ s', mainLoop S U cfg (fuel + 2) s = .error (.eof, s') ∧ s'.line = s0.line) ∧
+    (e.2 = .accept → (∃ m, verdictOf cfg s0.line.buf = .valid m) →
+      ∃ s', mainLoop S U cfg (fuel + 2) s = .ok ((), s') ∧ s'.line = s0.line) := by
+  have hnr : ∀ a, e.2 = a → a ≠ .move .charRight → ¬ (e.1 = key .right ∧ s0.hint.isSome = true ∧ s0.line.pos = blen s0.line.buf) :=
+    fun a ha hne h => hne (ha ▸ commonTable_right e he h.1)
+  have tbl := fun cmd hc hr => C01_binding_table_emacs_common S U cfg hvi hb (fuel + 1) s0 e he cmd hc hr
+  refine ⟨?_, ?_, ?_⟩
+  · intro ha
+    obtain ⟨s1, h1, h2⟩ := tbl .interrupt (by rw [ha]; rfl) (hnr _ ha (by simp))
+    have hn := nextCmd_emacs S U cfg hvi (fuel + 1) s s0 s1 _ _ hk h1 (by simp)
+    obtain ⟨s', h3, h4⟩ := (C01_outcome S U cfg fuel s s1 _ hn).1 rfl
+    exact ⟨s', h3, h4.trans h2⟩
+  · intro ha hem
+    obtain ⟨s1, h1, h2⟩ := tbl .endOfFile (by rw [ha]; simp [DocAction.resolve, hem, Doc.Act.toCmd]) (hnr _ ha (by simp))
+    have hn := nextCmd_emacs S U cfg hvi (fuel + 1) s s0 s1 _ _ hk h1 (by simp)
+    obtain ⟨s', h3, h4⟩ := (C01_outcome S U cfg fuel s s1 _ hn).2.1 rfl (by rw [h2]; exact hem)
+    exact ⟨s', h3, h4.trans h2⟩
+  · intro ha hv
+    obtain ⟨s1, h1, h2⟩ := tbl (.acceptOrInsertLine true) (by rw [ha]; rfl) (hnr _ ha (by simp))
+    have hn := nextCmd_emacs S U cfg hvi (fuel + 1) s s0 s1 _ _ hk h1 (by simp)
+    obtain ⟨s', h3, h4⟩ := (C01_outcome S U cfg fuel s s1 _ hn).2.2 rfl (by rw [h2]; exact hv)
+    exact ⟨s', h3, h4.trans h2⟩
+
+/-- **Key level, vi modes**: the same from vi insert / replace mode and from vi command mode (the
+    mode is the one in force when the key has been read). -/
+theorem C01_outcome_vi_keys (S : Segmenter) (U : UData) (cfg : EdCfg) (hvi : cfg.vi = true) (hb : cfg.binds = [])
+    (fuel : Nat) (s s0 : Ed) (e : KeyEvent × DocAction)
+    (hk : nextKey false s = .ok (e.1, s0))
+    (hmode : (s0.inp.inputMode ≠ .command ∧ e ∈ table .viInsert) ∨
+             (s0.inp.inputMode = .command ∧ e ∈ table .viCommand ∧ 0 ≤ s0.inp.numArgs)) :
+    (e.2 = .interrupt → ∃ s', mainLoop S U cfg (fuel + 2) s = .error (.interrupted, s') ∧ s'.line = s0.line) ∧
+    (e.2 = .deleteOrEof → s0.line.buf = [] →
+      ∃ s', mainLoop S U cfg (fuel + 2) s = .error (.eof, s') ∧ s'.line = s0.line) ∧
+    (e.2 = .accept → (∃ m, verdictOf cfg s0.line.buf = .valid m) →
+      ∃ s', mainLoop S U cfg (fuel + 2) s = .ok ((), s') ∧ s'.line = s0.line) := by
+  -- the keymap step, for either mode
+  have step : ∀ cmd, (∀ n, (e.2.resolve n true s0.line.buf.isEmpty true).toCmd = some cmd) → (∀ m t, cmd ≠ .replace m t) →
+      e.2 ≠ .move .charRight →
+      ∃ s1, nextCmd S U cfg (fuel + 1) false false s = .ok (cmd, s1) ∧ s1.line = s0.line := by
+    intro cmd hc hnr hne
+    rcases hmode with ⟨hm, he⟩ | ⟨hm, he, h0⟩
+    · obtain ⟨s1, h1, h2⟩ := C01_binding_table_vi_insert S U cfg hb (fuel + 1) s0 e he cmd (hc 1)
+        (fun h => hne (viInsertTable_right e he h.1))
+      exact ⟨s1, nextCmd_vi_insert S U cfg hvi (fuel + 1) s s0 s1 _ _ hk hm h1 hnr, h2⟩
+    · obtain ⟨s1, h1, h2⟩ := C01_binding_table_vi_command S U cfg hb (fuel + 1) s0 h0 e he cmd (hc _)
+      exact ⟨s1, nextCmd_vi_command S U cfg hvi (fuel + 1) s s0 s1 _ _ hk hm h1 hnr, h2⟩
+  refine ⟨?_, ?_, ?_⟩
+  · intro ha
+    obtain ⟨s1, hn, h2⟩ := step .interrupt (fun n => by rw [ha]; rfl) (by simp) (by rw [ha]; simp)
+    obtain ⟨s', h3, h4⟩ := (C01_outcome S U cfg fuel s s1 _ hn).1 rfl
+    exact ⟨s', h3, h4.trans h2⟩
+  · intro ha hem
+    obtain ⟨s1, hn, h2⟩ := step .endOfFile (fun n => by rw [ha]; simp [DocAction.resolve, hem, Doc.Act.toCmd]) (by simp)
+      (by rw [ha]; simp)
+    obtain ⟨s', h3, h4⟩ := (C01_outcome S U cfg fuel s s1 _ hn).2.1 rfl (by rw [h2]; exact hem)
+    exact ⟨s', h3, h4.trans h2⟩
+  · intro ha hv
+    obtain ⟨s1, hn, h2⟩ := step (.acceptOrInsertLine true) (fun n => by rw [ha]; rfl) (by simp) (by rw [ha]; simp)
+    obtain ⟨s', h3, h4⟩ := (C01_outcome S U cfg fuel s s1 _ hn).2.2 rfl (by rw [h2]; exact hv)
+    exact ⟨s', h3, h4.trans h2⟩
+
+/-- the final `edit_move_buffer_end` returns and keeps the text -/
+theorem C01_editMove_bufferEnd (S : Segmenter) (U : UData) (cfg : EdCfg) (s : Ed) (h : WF s.line) :
+    ∃ s', editMove S U cfg (LB.moveBufferEnd S U) s = .ok ((), s') ∧ s'.line.buf = s.line.buf := by
+  obtain ⟨r, lb', h1, _, h3⟩ := C03_moveBufferEnd_total_wf S U s.line h
+  unfold editMove
+  rw [EM.bind_apply, lbQuiet_ok h1]
+  cases r with
+  | false => exact ⟨_, rfl, h3⟩
+  | true =>
+    obtain ⟨s', h4, h5⟩ := moveCursor_returns S U cfg { s with line := lb' }
+    refine ⟨s', by simpa using h4, ?_⟩
+    have := (Ed.core_eq h5).1
+    rw [this]; exact h3
+
+
+/-- **The value of the read**: when the main loop returns (a submit) in state `s'`, `readline`
+    returns exactly the text of `s'` (the final move to the buffer end does not change it). -/
+theorem C01_outcome_readline (S : Segmenter) (U : UData) (cfg : EdCfg) (ring : KillRing) (left right : Text) (inp : Input) (s' : Ed)
+    (h : (do if !(left.isEmpty && right.isEmpty) then lb S U (LB.update S U (left ++ right) (blen left))
+             refreshLine S U cfg
+             mainLoop S U cfg (inp.size + 2) : EM Unit) (initEd cfg ring inp) = .ok ((), s'))
+    (hwf : WF s'.line) : (readline S U cfg ring left right inp).1 = .line s'.line.buf := by
+  obtain ⟨s'', h1, h2⟩ := C01_editMove_bufferEnd S U cfg s' hwf
+  unfold readline
+  by_cases hc : (!(left.isEmpty && right.isEmpty)) = true
+  · simp only [hc, if_true] at h ⊢
+    have hp : (do lb S U (LB.update S U (left ++ right) (blen left)); refreshLine S U cfg
+                  mainLoop S U cfg (inp.size + 2); editMove S U cfg (LB.moveBufferEnd S U) : EM Unit) =
+        ((do lb S U (LB.update S U (left ++ right) (blen left)); refreshLine S U cfg
+             mainLoop S U cfg (inp.size + 2) : EM Unit) >>= fun _ => editMove S U cfg (LB.moveBufferEnd S U)) := by
+      simp only [EM.bind_assoc']
+    rw [hp, EM.bind_apply, h]
+    simp only [h1, h2]
+  · simp only [hc, Bool.false_eq_true, if_false] at h ⊢
+    have hp : (do refreshLine S U cfg
+                  mainLoop S U cfg (inp.size + 2); editMove S U cfg (LB.moveBufferEnd S U) : EM Unit) =
+        ((do refreshLine S U cfg
+             mainLoop S U cfg (inp.size + 2) : EM Unit) >>= fun _ => editMove S U cfg (LB.moveBufferEnd S U)) := by
+      simp only [EM.bind_assoc']
+    rw [hp, EM.bind_apply, h]
+    simp only [h1, h2]
+
+/-! ### C01_custom_binding — a custom-bound key runs the bound command, not the documented one -/
+
+/-- emacs mode: a key with a `Simple` binding (and not the start of a numeric argument) yields
+    exactly the bound command — a repeatable one with the pending count in place of its own
+    (`Cmd::redo`) — whatever the tables say about the key; the `Event::Any` handler is not called
+    and only the pending argument is consumed. -/
+theorem C01_custom_binding_emacs (S : Segmenter) (U : UData) (cfg : EdCfg) (fuel : Nat) (k : KeyEvent) (ks : List KeyEvent) (c : Cmd)
+    (hfind : cfg.binds.find? (fun b => b.1 == [k]) = some (ks, c))
+    (hk : ∀ d, k = ⟨.char d, 4⟩ → ¬ (d = '-' ∨ isDigit d = true)) (s : Ed) :
+    emacs S U cfg fuel k s =
+      (if c.isRepeatable then redoCmd c (some (countOf s.inp.numArgs).1) else pure c)
+        { s with inp := { s.inp with numArgs := 0 } } := by
+  obtain ⟨code, mods⟩ := k
+  have hna := emacsNumArgs_eq s
+  cases code <;> try (simp [emacs, EM.bind_apply, hna, customBinding, hfind]; done)
+  case char d =>
+    by_cases hm : mods = 4
+    · subst hm
+      have := hk d rfl
+      simp only [not_or] at this
+      simp [emacs, EM.bind_apply, hna, customBinding, hfind, this.1, this.2, Mods.alt]
+    · simp [emacs, EM.bind_apply, hna, customBinding, hfind, hm, Mods.alt]
+
+/-- vi command mode: the same; the bound command keeps its own count when no count was typed -/
+theorem C01_custom_binding_vi_command (S : Segmenter) (U : UData) (cfg : EdCfg) (fuel : Nat) (k : KeyEvent) (ks : List KeyEvent) (c : Cmd)
+    (hfind : cfg.binds.find? (fun b => b.1 == [k]) = some (ks, c))
+    (hk : ∀ d, k = ⟨.char d, 0⟩ → ¬ ('1' ≤ d ∧ d ≤ '9')) (s : Ed) (h0 : 0 ≤ s.inp.numArgs) :
+    viCommand S U cfg fuel k s =
+      (if c.isRepeatable then redoCmd c (if s.inp.numArgs = 0 then none else some (countOf s.inp.numArgs).1) else pure c)
+        { s with inp := { s.inp with numArgs := 0 } } := by
+  obtain ⟨code, mods⟩ := k
+  have hna := viNumArgs_eq s h0
+  cases code <;> try (simp [viCommand, EM.bind_apply, EM.bind_read, hna, customBinding, hfind]; done)
+  case char d =>
+    by_cases hm : mods = 0
+    · subst hm
+      have := hk d rfl
+      simp [viCommand, EM.bind_apply, EM.bind_read, hna, customBinding, hfind, this]
+    · simp [viCommand, EM.bind_apply, EM.bind_read, hna, customBinding, hfind, hm]
+
+/-- vi insert / replace mode: the bound command as it is -/
+theorem C01_custom_binding_vi_insert (S : Segmenter) (U : UData) (cfg : EdCfg) (fuel : Nat) (k : KeyEvent) (ks : List KeyEvent) (c : Cmd)
+    (hfind : cfg.binds.find? (fun b => b.1 == [k]) = some (ks, c)) (s : Ed) :
+    viInsert S U cfg fuel k s = (if c.isRepeatable then redoCmd c none else pure c) s := by
+  simp [viInsert, EM.bind_apply, customBinding, hfind]
+
+/-- what "runs the bound command" evaluates to: a non-repeatable command is returned as it is; a
+    `Move` / `Kill` gets the typed count (`Movement::redo`) -/
+theorem C01_custom_binding_runs (c : Cmd) (new : Option Nat) (s : Ed) :
+    (c.isRepeatable = false → (if c.isRepeatable then redoCmd c new else pure c) s = .ok (c, s)) ∧
+    (∀ m, c = .move m → (if c.isRepeatable then redoCmd c new else pure c) s = .ok (.move (m.redo new), s)) ∧
+    (∀ m, c = .kill m → (if c.isRepeatable then redoCmd c new else pure c) s = .ok (.kill (m.redo new), s)) := by
+  refine ⟨fun h => by simp [h], ?_, ?_⟩
+  · rintro m rfl
+    simp [Cmd.isRepeatable, redoCmd, lastInsert, EM.bind_apply, EM.liftP, Cmd.redo]
+  · rintro m rfl
+    simp [Cmd.isRepeatable, Cmd.isRepeatableChange, redoCmd, lastInsert, EM.bind_apply, EM.liftP, Cmd.redo]
+
+
+/-- two-key sequences (`custom_seq_binding`): after a key that starts a bound sequence the second key
+    is read; a bound pair yields its command, a key that completes nothing yields no command (after
+    the repair of D35: no panic) and both keys are consumed -/
+theorem C01_custom_seq_binding (cfg : EdCfg) (fuel : Nat) (k1 k2 : KeyEvent) (n : Nat) (p : Bool) (s s1 : Ed)
+    (hd : hasDescendant cfg [k1] = true) (hk : nextKey true s = .ok (k2, s1)) :
+    (∀ ks c, cfg.binds.find? (fun b => b.1 == [k1, k2]) = some (ks, c) →
+      customSeqBinding cfg (fuel + 1) [k1] n p s = .ok ((some c, [k1, k2]), s1)) ∧
+    (cfg.binds.find? (fun b => b.1 == [k1, k2]) = none → hasDescendant cfg [k1, k2] = false →
+      customSeqBinding cfg (fuel + 2) [k1] n p s = .ok ((none, [k1, k2]), s1)) := by
+  constructor
+  · intro ks c hf
+    simp [customSeqBinding, hd, EM.bind_apply, hk, hf]
+  · intro hf hnd
+    simp [customSeqBinding, hd, EM.bind_apply, hk, hf, hnd]
+
+/-- … and for an otherwise unbound first key (the `common` fall-back) the bound command is what the
+    keymap returns; a pair that completes nothing is `Unknown` -/
+theorem C01_custom_seq_binding_fallback (cfg : EdCfg) (fuel : Nat) (k1 k2 : KeyEvent) (n : Nat) (p : Bool) (s s1 : Ed)
+    (hd : hasDescendant cfg [k1] = true) (hk : nextKey true s = .ok (k2, s1)) :
+    (∀ ks c, cfg.binds.find? (fun b => b.1 == [k1, k2]) = some (ks, c) →
+      common.fallback cfg (fuel + 1) [k1] n p s = .ok (c, s1)) ∧
+    (cfg.binds.find? (fun b => b.1 == [k1, k2]) = none → hasDescendant cfg [k1, k2] = false →
+      common.fallback cfg (fuel + 2) [k1] n p s = .ok (.unknown, s1)) := by
+  obtain ⟨h1, h2⟩ := C01_custom_seq_binding cfg fuel k1 k2 n p s s1 hd hk
+  constructor
+  · intro ks c hf
+    simp [common.fallback, EM.bind_apply, h1 ks c hf]
+  · intro hf hnd
+    simp [common.fallback, EM.bind_apply, h2 hf hnd]
+
+/-! ### non-vacuity -/
+
+/-- the vi tables do denote commands: `x` is `Kill(ForwardChar n)`, `C` is `Replace(EndOfLine)`,
+    `dw`'s span is the start of the n-th next word, `cw` is `ce`, `de` includes the end -/
+example : ((lookup (table .viCommand) (plain 'x')).map (fun a => (a.resolve 3 true false true).toCmd)) =
+      some (some (.kill (.forwardChar 3)))
+    ∧ ((lookup (table .viCommand) (plain 'C')).map (fun a => (a.resolve 1 true false true).toCmd)) =
+      some (some (.replace .endOfLine none))
+    ∧ docMotion (.move (.wordRight .start .vi)) 6 false none none = some (.forwardWord 6 .start .vi)
+    ∧ docMotion (.move (.wordRight .start .vi)) 6 true none none = some (.forwardWord 6 .afterEnd .vi)
+    ∧ docMotion (.move (.wordRight .beforeEnd .big)) 2 false none none = some (.forwardWord 2 .afterEnd .big) := by
+  decide
